@@ -73,7 +73,7 @@ def proof_obligations(prop):
     t0 = time.time()
     gen_err = None
     try:
-        import gen_fragments, gen_guards, gen_skel, gen_emit, gen_loops, gen_optimize, gen_loader_guards, gen_param_guards, gen_handler_guards, gen_geo, gen_render, gen_scenario, gen_coll_loaders
+        import gen_fragments, gen_guards, gen_skel, gen_emit, gen_loops, gen_optimize, gen_loader_guards, gen_param_guards, gen_handler_guards, gen_geo, gen_render, gen_scenario, gen_coll_loaders, gen_osrm
         gen_info = gen_fragments.regenerate()
         gen_info["guards"] = gen_guards.regenerate()     # scan guards translated from the current sources
         gen_info["skeleton"] = gen_skel.regenerate()     # control skeleton of the scan loops, from the current sources
@@ -85,6 +85,7 @@ def proof_obligations(prop):
         gen_info["param_guards"] = gen_param_guards.regenerate()     # parameter factories (keys, normalisations, defaults, test order), from the current sources
         gen_info["render"] = gen_render.regenerate()                 # the three JSON renderers: (key, member) pairs per object, reason switches, from the current sources
         gen_info["geo"] = gen_geo.regenerate()           # geographic filters: typed arithmetic of the walking radius, Euclidean rows, router pre-filter and row loop
+        gen_info["osrm_reply"] = gen_osrm.regenerate()   # walking-router client: the function body after the pre-filter as a statement tree (try / catch / returns / parse / null tests / loop)
         gen_info["scenario"] = gen_scenario.regenerate() # scenario trip filter (both copies), connection-set construction, cache protocol + the six cache methods, summary accumulator, hour-table loops
         gen_info["coll_loaders"] = gen_coll_loaders.regenerate()   # the seven collection loaders: frame (clear / open / handlers / return codes) and loop body (getter -> member, look-ups, fresh vectors, insertion), from the current sources
     except Exception as e:   # translator failure is reported, never silently ignored
